@@ -12,8 +12,8 @@ conf = ''
 for l in open('/tmp/seed/confirm1.log').read().splitlines() + (open('/tmp/seed/confirm2.log').read().splitlines() if os.path.exists('/tmp/seed/confirm2.log') else []):
     if l.startswith(f'{pid}/{n}:'): conf = l
 meta = dict(property=pid, change=int(n), breaks=breaks, needs_to_manifest=needs,
-            confirmed_by_me=dict(how='tools/confirm_seed.sh in the scratch worktree /tmp/seed/%s/wt (pinned commit): patch applies, tree builds, ctest 100%% passed, demo exits 0 without the patch and non-zero with it' % pid, result=conf),
-            patch='patch.diff is against the pinned commit 3e529fc' + ('; ported.diff is the same change re-expressed on /repo HEAD (context changed by fix: commits)' if os.path.exists(os.path.join(dst,'ported.diff')) else ''),
+            confirmed_by_me=dict(how='tools/confirm_seed.sh in the scratch worktree /tmp/seed/%s/wt (worktree of /repo HEAD at the time): patch applies, tree builds, ctest 100%% passed, demo exits 0 without the patch and non-zero with it' % pid, result=conf),
+            patch='patch.diff is against /repo HEAD at the time of seeding (%s)' % os.popen('git -C /repo rev-parse --short HEAD').read().strip() + ('; ported.diff is the same change re-expressed on /repo HEAD (context changed by fix: commits)' if os.path.exists(os.path.join(dst,'ported.diff')) else ''),
             detected_by=det, run='tools/seedtest.sh <patch> <checks> (scratch worktree of /repo HEAD + VERIF_REPO, quick tier, VERIF_SEED=1)')
 json.dump(meta, open(os.path.join(dst,'meta.json'),'w'), indent=1)
 print('kept', dst)
